@@ -13,3 +13,5 @@ def run(ctx, prog):
                                                  "Deserialization/", "Object/ObjectImpl.hpp"])
     ctx.doc("R-NUL", "keys and strings keep their length on the JSON reader side")
     cbs.run(ctx, prog)
+    from rules import scan
+    scan.run(ctx, prog)
